@@ -393,4 +393,106 @@ def chainStep (s : Sys) (fuel : Nat) (acc : Vec × List (Run (Option ScalData)))
 def chainExecute (s : Sys) (groups : List Group) (fuel : Nat) (start : Vec) : Vec × List (Run (Option ScalData)) :=
   groups.foldl (chainStep s fuel) (start, [])
 
+-- ------------------------------------------------------------------ MDASequential: sub-MDAs with their own settings
+
+/-- `mda.normed_residual < tolerance` after the execution of a sub-MDA, in squared form: the normed residual of an
+    elementary MDA is the last entry of its residual history (a sub-MDA that recorded nothing keeps the initial
+    value `1.0`, which is not below a tolerance `≤ 1`). -/
+def seqBreaks {σ : Type} (tol : Rat) (r : Run σ) : Bool :=
+  match r.hist.getLast? with
+  | some nsq => decide (0 < tol) && decide (nsq < tol * tol)
+  | none => false
+
+/-- `MDASequential._execute`: the sub-MDAs — each one an MDA object with ITS OWN configuration (tolerance,
+    `max_mda_iter`, ...) and state; an `MDASequential` cascades none of its settings — are executed one after the
+    other on the data of the previous one; the sequence stops after a sub-MDA whose normed residual is below the
+    tolerance of the SEQUENCE (`outerTol`), not below the sub-MDA's own tolerance.
+    Returns the final data and the runs of the executed sub-MDAs. -/
+def seqExecute (s : Sys) (outerTol : Rat) (fuel : Nat) :
+    List (Cfg × MState) → Vec → List (Run (Option ScalData)) → Vec × List (Run (Option ScalData))
+  | [], data, runs => (data, runs)
+  | (c, st) :: rest, data, runs =>
+    let r := execute s c fuel st data
+    if seqBreaks outerTol r then (r.data, runs ++ [r])
+    else seqExecute s outerTol fuel rest r.data (runs ++ [r])
+
+-- ------------------------------------------------------------------ several MDA objects in one process
+
+/-- `settings.<k> = v` on a settings model. -/
+def Settings.set (s : Settings) (k : String) (v : Rat) : Settings := (k, v) :: s.filter (fun e => !(e.1 == k))
+
+inductive Kind where
+  | chain | gsNewton | sequential | elementary
+  deriving Repr, DecidableEq
+
+/-- An MDA object as far as its settings go: its own `settings` model and the `settings` models of its inner MDAs
+    (`MDAChain.inner_mdas`) or stages (`MDASequential.mda_sequence`). -/
+structure Obj where
+  kind : Kind
+  own : Settings
+  subs : List Settings
+  deriving Repr
+
+/-- `_settings_names_to_be_cascaded` restricted to the numeric fields of the model: `MDAChain_Settings` and
+    `MDAGSNewton_Settings` cascade them, `MDASequential_Settings` cascades nothing. -/
+def cascades : Kind → Bool
+  | .chain | .gsNewton => true
+  | _ => false
+
+def cascade1 (own : Settings) (f : String) (sub : Settings) : Settings :=
+  match own.get? f with
+  | some v => sub.set f v
+  | none => sub
+
+/-- `ComposedMDASettings.__cascade_settings` (a validator that runs after EVERY assignment of a field of the composed
+    settings): every cascaded setting of the object is written into the settings of ITS OWN sub-MDAs. -/
+def cascade (o : Obj) : Obj :=
+  if cascades o.kind then
+    { o with subs := o.subs.map (fun sub => cascade1 o.own "max_mda_iter" (cascade1 o.own "tolerance" sub)) }
+  else o
+
+/-- Construction: the inner MDAs of an `MDAChain` / the two stages of an `MDAGSNewton` receive `innerSettings`;
+    the stages of an `MDASequential` are MDA objects the user built, with the settings they were built with. -/
+def mkObj (kind : Kind) (own : Settings) (given : List Settings) : Obj :=
+  match kind with
+  | .chain | .gsNewton => ⟨kind, own, given.map (innerSettings own)⟩
+  | .sequential => ⟨kind, own, given⟩
+  | .elementary => ⟨kind, own, []⟩
+
+def modifyNth {α : Type} (f : α → α) : Nat → List α → List α
+  | _, [] => []
+  | 0, a :: as => f a :: as
+  | n + 1, a :: as => a :: modifyNth f n as
+
+/-- Operations of a session on MDA objects named by numbers. -/
+inductive WOp where
+  /-- `<Class>(disciplines, **own, inner settings...)` -/
+  | create (id : Nat) (kind : Kind) (own : Settings) (given : List Settings)
+  /-- `mda.settings.<field> = v` -/
+  | assign (id : Nat) (field : String) (v : Rat)
+  /-- `mda.mda_sequence[j].settings.<field> = v` / `mda.inner_mdas[j].settings.<field> = v` -/
+  | assignSub (id : Nat) (j : Nat) (field : String) (v : Rat)
+  deriving Repr
+
+def WOp.target : WOp → Nat
+  | .create id _ _ _ => id
+  | .assign id _ _ => id
+  | .assignSub id _ _ _ => id
+
+/-- The MDA objects alive in the process. -/
+abbrev World := Nat → Option Obj
+
+def World.upd (w : World) (id : Nat) (o : Option Obj) : World := fun i => if i = id then o else w i
+
+/-- What an operation does to ONE object (`none`: not built yet). -/
+def objStep (o : Option Obj) : WOp → Option Obj
+  | .create _ kind own given => some (mkObj kind own given)
+  | .assign _ f v => o.map (fun o => cascade { o with own := o.own.set f v })
+  | .assignSub _ j f v => o.map (fun o => { o with subs := modifyNth (fun s => s.set f v) j o.subs })
+
+/-- An operation only touches the object it names: there is no state shared between the settings of two objects. -/
+def wstep (w : World) (op : WOp) : World := w.upd op.target (objStep (w op.target) op)
+
+def wrun (w : World) (ops : List WOp) : World := ops.foldl wstep w
+
 end GV.C06
